@@ -1,16 +1,17 @@
-\* C01 leg A thorough, 3 replicas (dd(dd(r1,r2),r3)): at most 2 samples per replica on a 5-point
-\* grid (16^3 = 4 096 layouts + 16 identical), readers with at most one Seek (4 targets)
+\* C01 leg A thorough, readers with up to TWO seeks (forwards, backwards = no-op, to the current
+\* timestamp, past the end): 2 replicas, at most 3 samples each on a 5-point grid (26^2 = 676
+\* layouts + 26 identical), 4 targets
 SPECIFICATION Spec
 CONSTANTS InitPen = 5
           Grid = {0, 1, 6, 11, 17}
-          NumReps = 3
-          MaxLen = 2
+          NumReps = 2
+          MaxLen = 3
           Ctr = FALSE
           Starts = {0}
           Incs = {0}
-          Targets = {0, 5, 11, 18}
+          Targets = {0, 6, 12, 18}
           EmitMod = 1
-          MaxSeeks = 1
+          MaxSeeks = 2
           Kinds = {"f"}
 INVARIANTS C01_StrictlyIncreasing C01_FromSomeReplica C01_UnchangedIfIdentical C01_SeekIsSuffix
            C01_FollowsFullStream StepwiseEqualsFunctional BoundedOutput OnlyDoneIsFinal
